@@ -174,15 +174,9 @@ CLASSES = [
           "tcsh: `{` and `}` are deleted from the value"),
     Class("oil_unquoted", ("C02", "C03", "C05", "C06"), ("value",), sh("oil"), _oil_neutral,
           "oil: the value is emitted without any quoting (blanks, quotes, `$`, globs, operators stay active)"),
-    Class("nushell_tab", ("C02", "C03", "C05", "C06"), ("value",), both(sh("nushell"), lambda i: _has(i, "\t")),
-          lambda i: _map_value_fields(i, _strip("\t"), ("value",)),
-          "nushell: a tab inside the value is neither dropped nor quoted (the word is split)"),
     Class("powershell_squote", ("C02", "C03", "C05", "C06"), ("value",), both(sh("powershell"), lambda i: _has(i, "'")),
           lambda i: _map_value_fields(i, _repl("'"), ("value",)),
           "powershell: a single quote in the value is emitted bare, and not doubled inside '...'"),
-    Class("powershell_cr", ("C02", "C03", "C04", "C05", "C06"), ("value",), both(sh("powershell"), lambda i: _has(i, "\r", ("value", "display", "description"))),
-          lambda i: _map_value_fields(i, _strip("\r")),
-          "powershell: CR is kept in value, display and description"),
     Class("xonsh_squote", ("C02", "C03", "C05", "C06"), ("value",), both(sh("xonsh"), lambda i: _has(i, "'")),
           lambda i: _map_value_fields(i, _repl("'"), ("value",)),
           "xonsh: `'` becomes `\\'` and is then wrapped in r'...': reads back with the backslash"),
@@ -190,9 +184,6 @@ CLASSES = [
           both(sh("xonsh"), lambda i: any(v["value"].rstrip("\n\t\r").endswith("\\") for v in i.get("values") or [])),
           lambda i: _map_value_fields(i, lambda s: s.rstrip("\n\t\r") + "x" if s.rstrip("\n\t\r").endswith("\\") else s, ("value",)),
           "xonsh: a value ending in a backslash gives r'...\\' which is not a complete literal"),
-    Class("xonsh_cr", ("C02", "C03", "C04", "C05", "C06"), ("value",), both(sh("xonsh"), lambda i: _has(i, "\r", ("value", "display"))),
-          lambda i: _map_value_fields(i, _strip("\r"), ("value", "display")),
-          "xonsh: CR is kept in the value and display"),
     Class("xonsh_display_unsanitised", ("C04",), ("value",), both(sh("xonsh"), lambda i: _has(i, "\n\r", ("display",))),
           lambda i: _map_value_fields(i, _strip("\n\r"), ("display",)),
           "xonsh: the display text is emitted unsanitised (line breaks stay)"),
